@@ -351,6 +351,7 @@ package otp
 //@   loop 1 invariant forall k :: 0 <= k && k < len(suites) ==> rangeseen(suites[k])
 //@   loop 1 invariant forall s: seq :: rangeseen(s) ==> exists k :: 0 <= k && k < len(suites) && suites[k] == s
 //@   ensures[fresh] fresh(suites)
+//@   ensures[off] offset0(suites)
 //@   ensures[count] len(suites) == 45
 //@   ensures[sound] forall k :: 0 <= k && k < len(suites) ==> maphas(knownSuites, suites[k])
 //@   ensures[complete] forall s: seq :: maphas(knownSuites, s) ==> exists k :: 0 <= k && k < len(suites) && suites[k] == s
